@@ -8,7 +8,7 @@ DRIVER = os.path.join(core.VERIF, "harness", "overlay", "neutrino", "zz_verif_cf
 HOOK = os.path.join(core.VERIF, "harness", "overlay", "chainsync", "zz_verif_cfsync_hook.go")
 PKG = core.REPO
 
-READY = False
+READY = True
 PROPERTIES = ["C03"]
 
 MANIFEST = {
